@@ -78,17 +78,26 @@ def case(draw, tier):
         stmts.append({"id": "after", "op": "node", "ins": ["m"], "log_inputs": False, "valid": []})
         targets += ["F.f0", "F.f1", "after"]
     elif shape == "switch":
+        fwd = draw(st.integers(0, 2)) == 0     # branches that END in a nested graph node: the switch output forwards to the child's terminal
+        if fwd:
+            for nb in ("N0", "N1"):
+                subs[nb] = {"params": ["TS[int]"], "out": "TS[int]", "ret": "i0",
+                            "stmts": [{"id": "i0", "op": "node", "ins": [{"arg": 0}], "out": "TS[int]", "fn": "count", "log_inputs": False}]}
         for b in ("B0", "B1"):
             subs[b] = {"params": ["TS[int]"], "names": ["x"], "out": "TS[int]", "ret": "s1", "stmts": [
                 {"id": "s0", "op": "node", "ins": [{"arg": 0}], "out": "TS[int]", "fn": "sum", "log_inputs": False},
+                {"id": "s1", "op": "nested", "sub": "N" + b[1], "ins": ["s0"]} if fwd else
                 {"id": "s1", "op": "node", "ins": ["s0"], "out": "TS[int]", "fn": "count", "log_inputs": False}]}
         ks = [[t, [{"k": "set", "v": draw(st.integers(0, 1))}]] for t in sorted(draw(st.sets(st.integers(0, horizon - 1), min_size=1, max_size=4)))]
         if ks[0][0] != 0:
             ks.insert(0, [0, [{"k": "set", "v": 0}]])
+        ks[0][1][0]["v"] = 0
+        if horizon >= 3 and not any(o[1][0]["v"] == 1 for o in ks) and draw(st.booleans()):
+            ks.append([max(k_[0] for k_ in ks) + 1, [{"k": "set", "v": 1}]])     # a switch-over to the other branch while B0 is alive
         stmts.append({"id": "key", "op": "src", "schema": "TS[int]", "script": ks})
         stmts.append({"id": "sw", "op": "op", "name": "switch_", "args": [{"ts": "key"}, {"cases": [[0, "B0"], [1, "B1"]], "key_t": "int"}, {"ts": prev}], "has_out": True})
         stmts.append({"id": "after", "op": "node", "ins": ["sw"], "log_inputs": False, "valid": []})
-        targets += ["B0.s0", "B0.s1", "B1.s0", "B1.s1", "after"]
+        targets += (["B0.s0", "B1.s0", "B0.N0.i0", "B1.N1.i0", "after"] if fwd else ["B0.s0", "B0.s1", "B1.s0", "B1.s1", "after"])
     elif shape == "reduce":
         subs["C"] = {"params": ["TS[int]", "TS[int]"], "names": ["lhs", "rhs"], "out": "TS[int]", "ret": "c1", "stmts": [
             {"id": "c0", "op": "node", "ins": [{"arg": 0}], "out": "TS[int]", "fn": "sum", "log_inputs": False},
@@ -104,6 +113,10 @@ def case(draw, tier):
         targets += ["C.c0", "C.c1", "after"]
     nfaults = draw(st.sampled_from([0, 1, 1, 1, 2, 2]))
     faults = []
+    if shape == "switch" and draw(st.integers(0, 2)) == 0:
+        # a start fault in the branch that is switched TO while the other branch is still alive
+        faults.append({"node": draw(st.sampled_from([t for t in targets if t.startswith("B1.")])), "phase": "start", "ord": 0})
+        nfaults = max(0, nfaults - 1)
     for _ in range(nfaults):
         faults.append({"node": draw(st.sampled_from(targets)), "phase": draw(st.sampled_from(["start", "eval", "eval", "stop", "stop"])),
                        "ord": draw(st.integers(0, 4))})
